@@ -772,6 +772,22 @@ def register(M):
         return RefV(a[0].root, a[0].path + (('v', 1), 0)), S.TRUE
     R('Option::insert', opt_insert)
 
+    def opt_get_or_insert_with(ex, fr, c, a, st, pc):
+        o = rd(st, a[0])
+        hit = tag_is(o, 1)
+        x = payload(o, 1)
+        cx = Ctx(ex, st, pc)
+        with_fn = 'get_or_insert_with' in c
+        d = cx.call(a[1], [], S.Not(hit)) if with_fn else a[1]
+        if d is None:
+            v = x
+            cx.live = S.And(cx.live, hit)
+        else:
+            v = d if x is UNDEF else merge(hit, x, d)
+        M.wr(cx.st, a[0], some(v))
+        return RefV(a[0].root, a[0].path + (('v', 1), 0)), cx.st, cx.live
+    R('Option::get_or_insert_with|Option::get_or_insert', opt_get_or_insert_with)
+
     # ------------------------------------------------------------ integer comparison
     def ordering(lt, eq):
         # Ordering: Less = -1, Equal = 0, Greater = 1 as i8 discriminant
